@@ -207,6 +207,10 @@ def spec_setitem(ex, ctx, outcome):
     ex.prove('C14:%s:writes-the-container-it-was-given' % n, ['C14', 'C07'], w[3] == L.refof(c))
     if stored is not None:
         stored_copy_check(ex, n, stored, v)
+        # what the statement hands back (its operand, KF-C07-setitem) is not the object that now sits in the container
+        ex.prove('C12:%s:result-does-not-alias-the-stored-copy' % n, ['C12', 'C07'],
+                 z3.Or(L.is_scalar(stored), L.is_Fun(stored), L.is_Slice(stored), outcome[1] != stored),
+                 {'watch': {'result': outcome[1], 'stored': stored}})
         lr, dr = Val.lref(c), Val.dref(c)
         ln = h0.llen(lr)
         j = norm(intval(kc), ln)
